@@ -4,13 +4,13 @@ package main
 // records one ndjson line per operation with the projected pre- and post-state.
 
 import (
-	"unicode/utf8"
 	"encoding/json"
 	"fmt"
 	"math/rand"
 	"os"
 	"sort"
 	"strings"
+	"unicode/utf8"
 
 	"git.defalsify.org/vise.git/cache"
 )
